@@ -93,13 +93,17 @@ fn history(cfg: &Cfg, rep: &mut Report, kind: Kind, h: u64, ledgers: usize) {
     rep.begin_history(h);
     let w = World::new(2 + rng.below(100) as u32, 16);
     let e = &w.env;
-    let n = 4;
-    let u = w.accounts(n);
+    // four accounts and, as a fifth party, the token contract's OWN address (it can hold, delegate and be
+    // delegated to like anybody else; its timeline must not share anything with the total's)
+    let n = 5;
+    let mut u = w.accounts(n);
     let c: Address = match kind {
         Kind::Fungible => e.register(TokVotes, ()),
         Kind::ExFungible => e.register(examples::fungible_votes::ExampleContract, (u[0].clone(),)),
         Kind::Nft => e.register(NftVotes, ()),
     };
+    u[n - 1] = c.clone();
+    let u = u;
     e.mock_all_auths();
     let mut m = Model { n, units: vec![0; n], delegate: vec![None; n], timeline: vec![], nft_owner: BTreeMap::new() };
     rep.op(format!("deploy {} ledger={}", kind.name(), w.ledger()));
@@ -366,7 +370,7 @@ fn history(cfg: &Cfg, rep: &mut Report, kind: Kind, h: u64, ledgers: usize) {
 }
 
 pub fn run(cfg: &Cfg, rep: &mut Report) {
-    rep.rule = "Seeded histories on the fungible-votes example, a votes wrapper with burn, and an NFT-votes wrapper: 1-6 operations (mint/burn/transfer incl. self and full balance/transfer_from and burn_from with the spender being the recipient, the holder or a third party/delegate/re-delegate/self-delegate by 4 accounts) per ledger, gaps of {1,2,3,10,1000,10^6} ledgers; at every ledger close every account and the total are queried at {0, now-1, each recent checkpoint ledger -1/+0/+1, 8 random past ledgers}; all answers are re-queried at the end. Distinct case = (token, op, delegation shape, position of the op inside its ledger, outcome) and (token, query position {before first, at checkpoint, between, after last}).".into();
+    rep.rule = "Seeded histories on the fungible-votes example, a votes wrapper with burn, and an NFT-votes wrapper: 1-6 operations (mint/burn/transfer incl. self and full balance/transfer_from and burn_from with the spender being the recipient, the holder or a third party/delegate/re-delegate/self-delegate by 4 accounts and the token contract's own address) per ledger, gaps of {1,2,3,10,1000,10^6} ledgers; at every ledger close every account and the total are queried at {0, now-1, each recent checkpoint ledger -1/+0/+1, 8 random past ledgers}; all answers are re-queried at the end. Distinct case = (token, op, delegation shape, position of the op inside its ledger, outcome) and (token, query position {before first, at checkpoint, between, after last}).".into();
     let nh = cfg.pick(4u64, 40);
     let ledgers = cfg.pick(40usize, 90);
     for (ki, kind) in [Kind::Fungible, Kind::ExFungible, Kind::Nft].iter().enumerate() {
